@@ -11,7 +11,7 @@ import (
 
 func init() {
 	register(&propDef{ID: "C19", Run: runC19,
-		Explain:    "Structural necessary conditions of 'the rotation follows name resolution, with bounded failure tolerance', decided on SSA/CFG of /repo: (1) diff-direction: in addressResolved added = strArraySub(resolved, known) and removed = strArraySub(known, resolved), both computed before the known set is replaced, and handed to the notifier in the order (added, removed), which every callback and hostIPChanged receive in that order; strArraySub(a, b) keeps the elements of a that are not in b and inStrArray is membership by equality; (2) failure-threshold: on the failure edge the counter is incremented by exactly 1, the rotation is emptied only when the counter has reached 4 and addresses are known, the counter is reset to 0 there, the known set becomes empty and the notifier gets (empty, previous set); (3) success-reset: on every success path the counter is reset to 0 and the known set replaced by the resolved one, and the notifier runs exactly when one of the two differences is non-empty; (4) membership-events: hostIPChanged creates a backend for each added address and removes RemoveBackend(createHostPort(ip, port)) for each removed one with the same address builder on both sides; resolver callbacks created in a loop capture only per-iteration variables; Add/RemoveBackend keep list, map, notification and Close in step (shared with C05.2) and the loop applies the events under Backend.GetAddress() (C04.3).",
+		Explain:    "Structural necessary conditions of 'the rotation follows name resolution, with bounded failure tolerance', decided on SSA/CFG of /repo: (1) diff-direction: in addressResolved added = strArraySub(resolved, known) and removed = strArraySub(known, resolved), both computed before the known set is replaced, and handed to the notifier in the order (added, removed), which every callback and hostIPChanged receive in that order; strArraySub(a, b) keeps the elements of a that are not in b and inStrArray is membership by equality; (2) failure-threshold: on the failure edge the counter is incremented by exactly 1, the rotation is emptied only when the counter has reached 4 and addresses are known, the counter is reset to 0 there, the known set becomes empty and the notifier gets (empty, previous set); (3) success-reset: on every success path the counter is reset to 0 and the known set replaced by the resolved one, and the notifier runs exactly when one of the two differences is non-empty; (4) membership-events: hostIPChanged creates a backend for each added address and removes RemoveBackend(createHostPort(ip, port)) for each removed one with the same address builder on both sides; resolver callbacks created in a loop capture only per-iteration variables; Add/RemoveBackend keep list, map, notification and Close in step (shared with C05.2) and the loop applies the events under Backend.GetAddress() (C04.3). The resolver reports the plain ip.String() texts (doResolve/plain-addresses): createHostPort is the one place that brackets an IPv6 address.",
 		NotDecided: "DNS behaviour, timing, ordering of concurrent notify goroutines (the quantifier assumes quiescence)."})
 }
 
